@@ -67,7 +67,10 @@ func (r SelectRec) Key() string {
 type Store struct {
 	Series []Series
 	Prune  bool
-	Inj    *Inject
+	// Trim makes every select return only the samples inside the time range of its querier
+	// ([mint, maxt]), as a TSDB does: a series may then come back without any sample.
+	Trim bool
+	Inj  *Inject
 	// Perturb, when set, is called at every callback (seeded yields / sleeps).
 	Perturb func(n int64)
 	// Sink, when set, receives "qopen" / "qclose" events (querier lifecycle).
@@ -101,6 +104,7 @@ func New(series []Series) *Store {
 func (s *Store) Clone() *Store {
 	n := New(s.Series)
 	n.Prune = s.Prune
+	n.Trim = s.Trim
 	return n
 }
 
@@ -243,6 +247,11 @@ func (q *querier) Select(sortSeries bool, h *storage.SelectHints, ms ...*labels.
 		}
 		if !ok {
 			continue
+		}
+		if q.s.Trim {
+			lo := sort.Search(len(x.T), func(i int) bool { return x.T[i] >= q.mint })
+			hi := sort.Search(len(x.T), func(i int) bool { return x.T[i] > q.maxt })
+			x = Series{L: x.L, T: x.T[lo:hi], V: x.V[lo:hi]}
 		}
 		if q.s.Prune && h != nil {
 			lo := sort.Search(len(x.T), func(i int) bool { return x.T[i] >= h.Start })
